@@ -3,6 +3,7 @@ import MdsVerif.Proofs.Mlink
 import MdsVerif.Proofs.MlinkRefine
 import MdsVerif.Proofs.Ring
 import MdsVerif.Proofs.RingCycle
+import MdsVerif.Proofs.RingRefine
 import MdsVerif.Gen.MlinkCursor
 /-!
 # C10 — stack, mlink.List/Queue and ring.Ring preserve their abstract sequence
@@ -628,6 +629,43 @@ example :
     let s := [Op.of 0 [1, 2, 3, 4, 5], .at_ 1 0 3, .join 2 0 1, .pop 4 1].foldl (fun s op => (step s op).1) ({} : St)
     s.h.size = 5 ∧ len s.h (s.reg 2) = .ok 2 ∧ len s.h (s.reg 0) = .ok 2 ∧ len s.h (s.reg 4) = .ok 1 := by
   decide
+
+/-!
+### The ring register machine refines the list-of-cycles reference
+
+`Spec.Cycles` is the documentation's picture: a list of cycles, `Join` and `Pop` as list surgery,
+elements numbered in creation order along their ring.  The model allocates heap cells in the order
+the loop of `New` links them (`Of 1 2 3` on the empty heap is the cycle of cells `[0, 2, 1]`, the
+reference calls the same elements `[0, 1, 2]`), so the simulation relation `Sim s c ρ` carries a
+renaming `ρ` of cells to element ids: `ρ` is a bijection of the allocated cells, values and
+registers agree through `ρ`, every reference cycle is the `ρ`-image of a model cycle and every cell
+is covered.  Outputs never contain a pointer, so the theorem itself is an equality of outputs.
+-/
+
+/-- **one step** from any related pair of states: same output, related states (the renaming is
+extended by `Of`/`New`, unchanged otherwise) -/
+theorem C10_ring_step (s : St) (c : MdsVerif.Spec.Cycles.C) (ρ : Nat → Nat) (hs : Sim s c ρ) (op : Op) :
+    ∃ ρ', Sim (step s op).1 (MdsVerif.Spec.Cycles.step c op).1 ρ' ∧
+      (step s op).2 = (MdsVerif.Spec.Cycles.step c op).2 :=
+  step_sim hs op
+
+/-- **C10 (ring)**: for every history of `Of, New, Join, Pop, Next, Prev, At, Peek, Len, Each, IsEmpty`
+over the element registers — any registers, any arguments, nil rings, `Join` of two elements of the
+same ring at any distance or of different rings, `Pop` of any element — the explicit-heap model of
+ring.go returns exactly what the list-of-cycles reference returns: the same values in the same
+order, the same lengths, the same nil-pointer panics, and never `hang`. -/
+theorem C10_ring_history (ops : List Op) : run {} ops = MdsVerif.Spec.Cycles.run {} ops :=
+  run_sim ops {} {} id sim_init
+
+/-- non-vacuity: the renaming is not the identity — `Of 1 2 3` is the cycle of cells `[0, 2, 1]` in the
+model and of element ids `[0, 1, 2]` in the reference — and the two agree on a history with both kinds
+of `Join` and a `Pop` -/
+example : (of {} [1, 2, 3]).1.next = [2, 0, 1] ∧
+    (MdsVerif.Spec.Cycles.step {} (.of 0 [1, 2, 3])).1.cycles = [[0, 1, 2]] ∧
+    MdsVerif.Spec.Cycles.run {} [.of 0 [1, 2, 3, 4, 5], .at_ 1 0 3, .join 2 0 1, .each 2 9, .each 0 9, .join 3 1 2,
+      .each 0 9, .pop 4 1, .each 0 9, .each 4 9, .len 0, .peek 0 (-1), .peek 0 4, .join 5 6 0]
+    = [.unit, .unit, .unit, .list [2, 3], .list [1, 4, 5], .unit, .list [1, 4, 2, 3, 5],
+       .unit, .list [1, 2, 3, 5], .list [4], .nat 4, .pair 5 true, .pair 0 false, .panicNil] := by decide
 
 end ring
 
